@@ -217,7 +217,11 @@ fn check_big_terms(c: &BigTermCase, obs: &mut Obs) -> CheckResult {
     };
     let secs = ns.div_euclid(1_000_000_000);
     // representable: months fit an i32 (its minimum is the NaT marker) and chrono can hold the rest
-    let inner_exact = if secs.abs() <= i64::MAX as i128 { chrono::Duration::try_seconds(secs as i64).and_then(|d| d.checked_add(&chrono::Duration::nanoseconds(ns.rem_euclid(1_000_000_000) as i64))) } else { None };
+    // (built from whole milliseconds + the sub-millisecond rest: chrono's range is +-i64::MAX ms, and
+    // flooring to whole seconds first would wrongly exclude the last fraction of a second of that range)
+    let ms_total = ns.div_euclid(1_000_000);
+    let inner_exact = if ms_total.abs() <= i64::MAX as i128 { chrono::Duration::try_milliseconds(ms_total as i64).and_then(|d| d.checked_add(&chrono::Duration::nanoseconds(ns.rem_euclid(1_000_000) as i64))) } else { None };
+    let _ = secs;
     let representable = months > i32::MIN as i128 && months <= i32::MAX as i128 && inner_exact.is_some();
     match r {
         Err(_) => {
